@@ -11,6 +11,7 @@ import (
 )
 
 type Clause struct {
+	Using []string // `use(a,b)`: prove this clause from the quantified assumptions of these origins only (plus all ground facts)
 	Mode  string // "" = always; otherwise the clause belongs to the named contract mode (see `at F K mode M`)
 	Label string
 	Src   string
@@ -158,6 +159,14 @@ func (db *ContractDB) parseContractText(file, text, defaultPkg string) error {
 			if i := strings.IndexAny(rest, " \t"); i > 0 {
 				c.Mode = rest[1:i]
 				rest = strings.TrimSpace(rest[i:])
+			}
+		}
+		if strings.HasPrefix(rest, "use(") {
+			if i := strings.Index(rest, ")"); i > 0 {
+				for _, u := range strings.Split(rest[4:i], ",") {
+					c.Using = append(c.Using, strings.TrimSpace(u))
+				}
+				rest = strings.TrimSpace(rest[i+1:])
 			}
 		}
 		c.Src = rest
